@@ -20,7 +20,7 @@ pub fn def() -> PropDef {
 }
 
 fn streams(t: Tier) -> Vec<StreamDef> {
-    vec![st("crafted", t.n(42 * 16 * 24, 42 * 16 * 400, 96, 42 * 16 * 8), true), st("random", t.n(100_000, 5_000_000, 96, 30_000), false), st("giant", t.n(12, 96, 0, 12), false)]
+    vec![st("crafted", t.n(42 * 16 * 24, 42 * 16 * 400, 64, 42 * 16 * 8), true), st("random", t.n(100_000, 5_000_000, 64, 30_000), false), st("giant", t.n(12, 96, 0, 12), false)]
 }
 
 fn floors(t: Tier) -> Vec<(String, u64)> {
